@@ -39,12 +39,23 @@ func (t tasks) Swap(a, b int) {
 func (t tasks) Remove(task *taskInfo) tasks {
 	task.mtx.Lock()
 	defer task.mtx.Unlock()
-	if task.Index+1 > t.Size() {
+	// the per-height goroutines of one download share the taskInfo objects and the backing array of
+	// the list: locate the task by identity (Index may have been set through another goroutine's
+	// view of the list) and build the result in fresh memory instead of shifting the shared array
+	index := task.Index
+	for i, x := range t {
+		if x == task {
+			index = i
+			break
+		}
+	}
+	if index+1 > t.Size() {
 		return t
 	}
 
-	t = append(t[:task.Index], t[task.Index+1:]...)
-	return t
+	nt := make(tasks, 0, t.Size()-1)
+	nt = append(nt, t[:index]...)
+	return append(nt, t[index+1:]...)
 }
 
 func (t tasks) Sort() tasks {
